@@ -13,9 +13,17 @@
      a fresh probe call) is a violation kv:mt:hang:..., not a tool timeout.
 (G)  directed scenario for the resize gate (KV!BeginWait / Resize / Admit): the enlargement is deferred
      because another thread holds an open iterator; the batch that waited for it then writes 200 KiB.
+(N)  directed scenario for per-thread nesting (KV!Entered / Left / CanEnter, NoHolderParked, GateLive): ONE thread holds a
+     store iterator, looks its items up, writes and opens further transactions while the data crosses 90 % of the map -
+     once with its own batch() asking for the enlargement, once with another thread's; supervised (a call that does not
+     return is a hang verdict), recorded and validated by KVTrace.tla (iterators held across other calls).
+(F)  directed scenario for reads in flight (KV!ReadBegin .. ReadEnd, CountAgrees, NoRemapUnderTxn): a Store::get_ser is
+     stopped in the middle of its value while a writer needs the enlargement: the writer must stall, the mapping of the
+     data file must stay, the released read must yield the committed value; the process is supervised (a SIGSEGV of the
+     code under test is a verdict); recorded and validated by KVTrace.tla.
 (P)  probe: is the head-room checked in Store::batch() still there once the write lock is held?
 """
-import json, os, re, shutil
+import json, os, re, shutil, time
 import vlib
 from vlib import Report, ToolError, log
 
@@ -23,14 +31,23 @@ PID = "C18"
 ENGINES = ["kv"]
 
 MC_ACTIONS = ["MBegin", "MBeginWait", "MAdmit", "MChild", "MCommitChild", "MDropChild", "MCommit", "MDrop", "MResize", "MCrash",
-              "MPut", "MDel", "MOutIterOpen", "MOutIterNext", "MOutIterClose",
+              "MPut", "MDel", "MOutIterOpen", "MOutIterNext", "MOutIterClose", "MReadBegin", "MReadEnd",
               "MGet", "MExists", "MIter", "MOutGet", "MOutExists", "MOutIter"]
+# careless variants of the model (anti-vacuity): configuration -> what TLC has to report
+CARELESS = [("MC_KV_gateorder", "NoMapFull"),            # write_txn() before enter_tx()
+            ("MC_KV_nestedmark", "NoHolderParked"),      # a nested close wipes the thread's mark
+            ("MC_KV_nestedmark_dl", "deadlock"),         # ... and then nothing ever moves again
+            ("MC_KV_readcount", "NoRemapUnderTxn")]      # a plain read is not counted while it is in flight
+NESTED_SIG = "kv:nested:resize_deadlock:iterator_held"
+INFLIGHT_SIG = "kv:resize:inflight_read_not_counted"
+INFLIGHT_CRASH_SIG = "kv:resize:under_inflight_read:crash"
 RACE_SIG = "kv:resize:stale_check:second_writer:mapfull"
 GATE_SIG = "kv:resize:deferred:waiting_batch:mapfull"
 # key-space size of the recorded runs; must equal NK in the trace configuration used
 TRACE_CFG = {60: "trace/KVTrace", 100: "trace/KVTrace_thorough"}
 T_ACTIONS = ["TBegin", "TPut", "TDel", "TGet", "TExists", "TIter", "TChild", "TCommitChild", "TDropChild", "TDrop",
-             "TCommit", "TCrash", "TOutGet", "TOutExists", "TOutIter", "TReset"]
+             "TCommit", "TCrash", "TOutGet", "TOutExists", "TOutIter", "TReset",
+             "TOutIterOpen", "TOutIterNext", "TOutIterClose", "TReadBegin", "TReadEnd"]
 TCOUNTS = {}
 
 
@@ -44,30 +61,48 @@ def coverage_counts(out, prefix):
 
 
 def model_check(cfgs):
+    """All TLC runs of the specification itself: the property configurations (must hold, every action taken), the
+    deadlock-freedom run and the careless variants (must fail in the expected way). Two runs at a time (3 + 1 workers)."""
+    from concurrent.futures import ThreadPoolExecutor
+    jobs = [(c, "hold") for c in cfgs] + [("MC_KV_live", "live")] + CARELESS
+
+    BIG = ("MC_KV", "MC_KV_thorough", "MC_KV_wide")
+
+    def lane(mine):
+        # the large data configurations run without -coverage (their actions are all taken in the smaller ones, which are counted)
+        return [((cfg, kind), vlib.tlc("mc/MC_KV", "mc/" + cfg, workers=3 if cfg in BIG else 1, coverage=(kind == "hold" and cfg not in BIG),
+                                       timeout=1500, deadlock=(kind in ("live", "deadlock")))) for cfg, kind in mine]
+    with ThreadPoolExecutor(max_workers=2) as ex:
+        a = ex.submit(lane, [j for j in jobs if j[0] in BIG])
+        b = ex.submit(lane, [j for j in jobs if j[0] not in BIG])
+        results = a.result() + b.result()
     states = trans = 0
     counts = {}
     per = {}
-    for cfg in cfgs:
-        r = vlib.tlc("mc/MC_KV", "mc/" + cfg, workers=4, timeout=1500)
-        if r.invariant_violated or r.property_violated:
-            print(r.out[-4000:])
-            raise ToolError("KV.tla violates its own properties in %s (%s): the model is wrong" % (cfg, r.invariant_violated))
-        vlib.tlc_ok(r, cfg)
-        states += r.distinct
-        trans += r.generated
-        per[cfg] = {"states": r.distinct, "transitions": r.generated, "depth": r.depth, "wall_s": round(r.wall, 1)}
-        for k, v in coverage_counts(r.out, "M").items():
-            counts[k] = counts.get(k, 0) + v
+    for (cfg, kind), r in results:
+        if kind in ("hold", "live"):
+            if r.invariant_violated or r.property_violated or r.deadlock:
+                print(r.out[-4000:])
+                raise ToolError("KV.tla violates its own properties in %s (%s%s): the model is wrong"
+                                % (cfg, r.invariant_violated, " deadlock" if r.deadlock else ""))
+            vlib.tlc_ok(r, cfg)
+            states += r.distinct
+            trans += r.generated
+            per[cfg] = {"states": r.distinct, "transitions": r.generated, "depth": r.depth, "wall_s": round(r.wall, 1)}
+            if kind == "live":
+                per[cfg]["deadlock_checking"] = True
+            for k, v in coverage_counts(r.out, "M").items():
+                counts[k] = counts.get(k, 0) + v
+        else:
+            # anti-vacuity: the careless variant must break exactly the invariant that guards against it
+            got = r.deadlock if kind == "deadlock" else kind in " ".join(r.invariant_violated)
+            if not got:
+                print(r.out[-3000:])
+                raise ToolError("%s: the careless variant does not violate %s (vacuous gate model)" % (cfg, kind))
+            per[cfg] = {"expected_violation": kind, "states": r.distinct, "wall_s": round(r.wall, 1)}
     never = [a for a in MC_ACTIONS if counts.get(a, 0) == 0]
     if never:
         raise ToolError("model actions never taken (vacuous model check): %s" % never)
-    # anti-vacuity for the resize gate: with the write transaction opened BEFORE the gate (TxnBeforeGate = TRUE)
-    # the enlargement is refused and the model must run out of space
-    r = vlib.tlc("mc/MC_KV", "mc/MC_KV_gateorder", workers=4, coverage=False, timeout=600)
-    if "NoMapFull" not in " ".join(r.invariant_violated):
-        print(r.out[-3000:])
-        raise ToolError("MC_KV_gateorder: the careless gate order does not violate NoMapFull (vacuous resize-gate model)")
-    per["MC_KV_gateorder"] = {"expected_violation": "NoMapFull", "states": r.distinct, "wall_s": round(r.wall, 1)}
     return states, trans, counts, per
 
 
@@ -99,40 +134,54 @@ def step_sig(beh, mm):
     return "kv:replay:%s:after=%s:depth=%s" % (mm.get("op", "?"), act, d)
 
 
-def replay_behaviours(rep, wd, behs, tag="cases"):
-    """Run the harness on behaviours; returns (checks, action counts). Records violations."""
+def replay_shard(wd, behs, tag):
+    """One harness process over `behs`; returns (violations [(signature, case, what)], checks, action counts)."""
     cp = os.path.join(wd, tag + ".ndjson")
     vlib.write_ndjson(cp, behs)
     outp = os.path.join(wd, tag + "_out.ndjson")
     for f in (outp, outp + ".hang"):
         if os.path.exists(f):
             os.remove(f)
-    p = vlib.harness(["kv", "replay", "--cases", cp, "--out", outp, "--dir", os.path.join(wd, "stores"),
+    p = vlib.harness(["kv", "replay", "--cases", cp, "--out", outp, "--dir", os.path.join(wd, "stores_" + tag),
                       "--ns", 2, "--nk", 3], check=False, timeout=1500)
     if os.path.exists(outp + ".hang"):
         h = json.load(open(outp + ".hang"))
         b = behs[h["behaviour"]]
         nxt = min(h["after_step"] + 1, len(b) - 1)
-        rep.violation("kv:replay:hang:in=%s" % b[nxt]["a"]["k"],
-                      {"kind": "behaviour", "behaviour": b, "hang": h},
-                      "a store call never returned (>20 s) around step %d of %s" % (h["after_step"], [s["a"]["k"] for s in b]))
-        return 0, {}
+        return [("kv:replay:hang:in=%s" % b[nxt]["a"]["k"], {"kind": "behaviour", "behaviour": b, "hang": h},
+                 "a store call never returned (>20 s) around step %d of %s" % (h["after_step"], [s["a"]["k"] for s in b]))], 0, {}
     if p.returncode < 0:
         done = len(vlib.read_ndjson(outp)) if os.path.exists(outp) else 0
-        rep.violation("kv:replay:crash:signal=%d" % -p.returncode,
-                      {"kind": "behaviour", "behaviour": behs[min(done, len(behs) - 1)]},
-                      "harness killed by signal %d while replaying behaviour %d" % (-p.returncode, done))
-        return 0, {}
+        return [("kv:replay:crash:signal=%d" % -p.returncode, {"kind": "behaviour", "behaviour": behs[min(done, len(behs) - 1)]},
+                 "harness killed by signal %d while replaying behaviour %d" % (-p.returncode, done))], 0, {}
     if p.returncode != 0:
         print(p.stdout[-2000:], p.stderr[-2000:])
         raise ToolError("kv replay failed")
     info = json.loads(p.stdout.strip().splitlines()[-1])
     res = vlib.read_ndjson(outp)
+    viol = []
     for b, r in zip(behs, res):
         for mm in r["mismatches"][:1]:
-            rep.violation(step_sig(b, mm), {"kind": "behaviour", "behaviour": b, "defdb": r.get("defdb"), "mismatch": mm},
-                          json.dumps(mm)[:600])
-    return info["checks"], info["actions"]
+            viol.append((step_sig(b, mm), {"kind": "behaviour", "behaviour": b, "defdb": r.get("defdb"), "mismatch": mm}, json.dumps(mm)[:600]))
+    return viol, info["checks"], info["actions"]
+
+
+def replay_behaviours(rep, wd, behs, tag="cases"):
+    """Run the harness on behaviours; returns (checks, action counts). Records violations.
+    The replay waits for the disk (every Commit is an fsync): three harness processes share the behaviours."""
+    from concurrent.futures import ThreadPoolExecutor
+    k = 3 if len(behs) >= 300 else 1
+    shards = [behs[i::k] for i in range(k)]
+    with ThreadPoolExecutor(max_workers=k) as ex:
+        results = list(ex.map(lambda x: replay_shard(wd, x[1], "%s%d" % (tag, x[0]) if k > 1 else tag), enumerate(shards)))
+    checks, actions = 0, {}
+    for viol, c, a in results:
+        for sig, case, what in viol:
+            rep.violation(sig, case, what)
+        checks += c
+        for key, v in a.items():
+            actions[key] = actions.get(key, 0) + v
+    return checks, actions
 
 
 def validate_trace(path, what, nk=60):
@@ -250,6 +299,17 @@ def run_race(rep, wd):
     return res
 
 
+def run_squeeze(wd):
+    """Probe, never a verdict (outside the property's quantifier: the iterator is held by the batch's OWN thread)."""
+    res = {}
+    for mode in ("control", "own_iterator"):
+        d = os.path.join(wd, "squeeze")
+        p = vlib.harness(["kv", "squeeze", "--dir", d, "--mode", mode], timeout=120, check=False)
+        shutil.rmtree(d, ignore_errors=True)
+        res[mode] = last_json(p) or {"inconclusive": "rc=%s" % p.returncode}
+    return res
+
+
 def run_gate(rep, wd):
     """Deferred enlargement: a reader holds an iterator when batch() finds the map > 90 % full; the batch waits at
     the gate, the reader closes, the map is enlarged, the batch writes 200 KiB (20 % of the OLD map, < 10 % of the new)."""
@@ -291,7 +351,122 @@ def run_gate(rep, wd):
     return res
 
 
-def selftest(rep, wd, behs, trace_path, nk):
+def last_json(p):
+    """Last stdout line of a harness run as JSON (None if there is none)."""
+    for line in reversed(p.stdout.strip().splitlines()):
+        try:
+            return json.loads(line)
+        except Exception:
+            continue
+    return None
+
+
+def run_nested(rep, wd, seed):
+    """(N) one thread: iterator held + per-item lookups + own batch + more transactions while the map crosses 90 %."""
+    tp = os.path.join(wd, "trace_nested.ndjson")
+    res = None
+    for attempt in (1, 2):
+        d = os.path.join(wd, "nested")
+        if os.path.exists(tp):
+            os.remove(tp)
+        p = vlib.harness(["kv", "nested", "--dir", d, "--out", tp, "--seed", seed], timeout=300, check=False)
+        shutil.rmtree(d, ignore_errors=True)
+        res = last_json(p)
+        case = {"kind": "nested", "seed": seed, "result": res}
+        if p.returncode < 0:
+            rep.violation("kv:nested:crash:signal=%d" % -p.returncode, case,
+                          "nested-transactions scenario: process killed by signal %d (last report: %s)" % (-p.returncode, json.dumps(res)))
+            return {"class": "crash"}, None
+        if res is None or p.returncode != 0:
+            print(p.stdout[-1500:], p.stderr[-1500:])
+            raise ToolError("kv nested gave no result")
+        if res.get("class") != "hang" or attempt == 2:
+            break
+        log("kv nested: a store call did not return within %s s (in %s); re-confirming once" % (res.get("bound_s"), res.get("in")))
+    res["attempts"] = attempt
+    cls = res.get("class")
+    if cls == "hang":
+        op = res.get("in")
+        if op in ("batch", "put", "commit", "exists", "get_ser", "iter_second", "iter_next"):
+            rep.violation("%s:in=%s" % (NESTED_SIG, op), case,
+                          "a thread that holds a store iterator (and has looked an item up under it) called %s while a map "
+                          "enlargement was due (asked for by %s): the call never returned (%s s, twice) - the enlargement waits for "
+                          "the iterator, the thread for the enlargement, every other thread for the flag: %s"
+                          % (op, res.get("kind"), res.get("bound_s"), json.dumps(res)))
+        else:
+            rep.violation("kv:nested:hang:in=%s" % op, case, "nested-transactions scenario: a store call did not return (%s s, twice): %s"
+                          % (res.get("bound_s"), json.dumps(res)))
+    elif cls in ("mapfull", "error", "panic"):
+        rep.violation("kv:nested:%s:%s:when=%s" % (cls, res.get("op"), res.get("kind")), case,
+                      "nested-transactions scenario: operation failed: %s" % json.dumps(res))
+    elif cls != "ok":
+        raise ToolError("kv nested: scenario not exercised: %s" % json.dumps(res))
+    return res, (tp if cls == "ok" else None)
+
+
+def run_inflight(rep, wd):
+    """(F) a get_ser stopped in the middle of its value while a writer needs the enlargement."""
+    tp = os.path.join(wd, "trace_inflight.ndjson")
+    res = None
+    for attempt in (1, 2):
+        d = os.path.join(wd, "inflight")
+        if os.path.exists(tp):
+            os.remove(tp)
+        p = vlib.harness(["kv", "inflight", "--dir", d, "--out", tp], timeout=300, check=False)
+        shutil.rmtree(d, ignore_errors=True)
+        res = last_json(p)
+        case = {"kind": "inflight", "result": res}
+        if p.returncode < 0 and not (res and res.get("class") == "remapped"):
+            # the code under test took the process down (unmapped memory under a reader): data, not a tool problem
+            rep.violation("%s:signal=%d" % (INFLIGHT_CRASH_SIG, -p.returncode), case,
+                          "a writer forced a map enlargement while a Store::get_ser was in flight: process killed by signal %d" % -p.returncode)
+            return {"class": "crash", "signal": -p.returncode}, None
+        if res is None or (p.returncode != 0 and p.returncode > 0):
+            print(p.stdout[-1500:], p.stderr[-1500:])
+            raise ToolError("kv inflight gave no result")
+        if p.returncode < 0:
+            res["killed_by_signal_after_report"] = -p.returncode
+        if res.get("class") != "hang" or attempt == 2:
+            break
+        log("kv inflight: no progress within %s s (%s); re-confirming once" % (res.get("bound_s"), res.get("phase")))
+    res["attempts"] = attempt
+    cls = res.get("class")
+    if cls == "remapped":
+        rep.violation(INFLIGHT_SIG, case,
+                      "the memory map of the data file was replaced (%s -> %s) while a Store::get_ser read transaction was open on another "
+                      "thread (stopped in the middle of its value): the read is not counted among the open transactions the "
+                      "enlargement has to wait for; writer commits done: %s; the read afterwards: %s%s"
+                      % (res.get("map_before"), res.get("map_after"), res.get("writer_commits_done"), res.get("read_after_remap", "process died"),
+                         ", process killed by signal %s" % res["killed_by_signal_after_report"] if "killed_by_signal_after_report" in res else ""))
+    elif cls in ("wrong_value", "read_error"):
+        rep.violation("kv:inflight:read:%s" % cls, case, "the read that was in flight while the writer stalled did not yield the committed value: %s" % json.dumps(res))
+    elif cls == "hang":
+        rep.violation("kv:inflight:hang:%s" % res.get("phase"), case, "read-in-flight scenario: no progress within %s s, twice: %s" % (res.get("bound_s"), json.dumps(res)))
+    elif cls in ("mapfull", "error"):
+        rep.violation("kv:inflight:%s:%s" % (cls, res.get("phase", "setup")), case, "read-in-flight scenario: operation failed: %s" % json.dumps(res))
+    elif cls != "ok":
+        raise ToolError("kv inflight: scenario not exercised: %s" % json.dumps(res))
+    return res, (tp if cls == "ok" else None)
+
+
+def validate_scenarios(rep, wd, traces):
+    """The recorded directed scenarios, one Reset-separated trace, against KVTrace.tla (NK = 100)."""
+    evs = []
+    for name, tp in traces:
+        evs.append({"k": "Reset", "scenario": name})
+        evs.extend(vlib.read_ndjson(tp))
+    path = os.path.join(wd, "trace_scenarios.ndjson")
+    vlib.write_ndjson(path, evs)
+    ok, why, _ = validate_trace(path, "scenarios", 100)
+    if not ok:
+        keep = keep_trace(path, "C18_scenarios_%d.ndjson" % vlib.seed())
+        scen = (why.get("run") or {}).get("scenario", "?")
+        rep.violation("kv:%s:trace:%s" % (scen, why["event"].get("k")), {"kind": "trace", "trace": keep, "nk": 100, "rejected": why},
+                      "%s scenario: recorded event not allowed by KV.tla: #%d %s" % (scen, why["index"], json.dumps(why["event"])[:400]))
+    return path, len(evs)
+
+
+def selftest(rep, wd, behs, trace_path, nk, scen_path=None):
     """The binding must be able to fail: a wrong expectation and a corrupted recorded field are rejected."""
     b = json.loads(json.dumps(next(x for x in behs if any(s["a"]["k"] == "Commit" and s["out"] != [[], []] for s in x))))
     i = next(i for i, s in enumerate(b) if s["a"]["k"] == "Commit" and s["out"] != [[], []])
@@ -316,7 +491,27 @@ def selftest(rep, wd, behs, trace_path, nk):
     ok, why, _ = validate_trace(bad, "selftest", nk)
     if ok or why["index"] != j + 1:
         raise ToolError("selftest: a corrupted iterator observation was not rejected at its event (%s)" % (why,))
-    return {"corrupted_expectation_rejected": True, "corrupted_trace_rejected_at": j + 1}
+    st = {"corrupted_expectation_rejected": True, "corrupted_trace_rejected_at": j + 1}
+    if scen_path:
+        # a held iterator that "sees" its own thread's later commit, and a read in flight that yields another value
+        evs = vlib.read_ndjson(scen_path)
+        for what, pick in (("held_iterator", lambda i, e: e["k"] == "OutIterNext" and e["res"] and i > 0 and evs[i - 1]["k"] == "OutIterClose"),
+                           ("read_in_flight", lambda i, e: e["k"] == "ReadEnd")):
+            cand = [i for i, e in enumerate(evs) if pick(i, e)]
+            if not cand:
+                raise ToolError("selftest: no %s observation in the scenario trace" % what)
+            j = cand[-1]
+            bad_evs = json.loads(json.dumps(evs))
+            if what == "held_iterator":
+                bad_evs[j]["res"][1] += 1
+            else:
+                bad_evs[j]["res"] += 1
+            vlib.write_ndjson(bad, bad_evs)
+            ok, why, _ = validate_trace(bad, "selftest " + what, 100)
+            if ok or why["index"] != j + 1:
+                raise ToolError("selftest: a corrupted %s observation was not rejected at its event (%s)" % (what, why))
+            st["corrupted_%s_rejected_at" % what] = j + 1
+    return st
 
 
 def do_replay(rep, wd, obj):
@@ -340,6 +535,10 @@ def do_replay(rep, wd, obj):
         run_race(rep, wd)
     elif kind == "gate":
         run_gate(rep, wd)
+    elif kind == "nested":
+        run_nested(rep, wd, case.get("seed", 1))
+    elif kind == "inflight":
+        run_inflight(rep, wd)
     else:
         raise ToolError("unknown replay kind %r" % kind)
     rep.coverage = {"states": 1, "transitions": 1, "traces_validated_against_impl": 1, "samples": [obj["signature"]]}
@@ -353,22 +552,31 @@ def run(tier, replay):
     if replay:
         return do_replay(rep, wd, json.load(open(replay)))
     seed = vlib.seed()
+    phases = {}
+    t_ph = [time.time()]
+
+    def phase(name):
+        phases[name] = round(time.time() - t_ph[0], 1)
+        t_ph[0] = time.time()
 
     # (M) the specification itself
-    cfgs = ["MC_KV", "MC_KV_reads", "MC_KV_resize"]
+    cfgs = ["MC_KV", "MC_KV_reads", "MC_KV_resize", "MC_KV_inflight", "MC_KV_threads"]
     if thorough:
-        cfgs = ["MC_KV_thorough", "MC_KV_wide", "MC_KV_reads", "MC_KV_resize"]
+        cfgs = ["MC_KV_thorough", "MC_KV_wide", "MC_KV_reads", "MC_KV_resize", "MC_KV_inflight", "MC_KV_threads"]
     states, trans, mc_counts, per_cfg = model_check(cfgs)
+    phase("model_check")
 
     # (A) behaviours -> real Store
     behs, nsys, nsim = emit_behaviours(thorough)
+    phase("emit")
     checks, replayed_actions = replay_behaviours(rep, wd, behs)
+    phase("replay")
     if rep.violations:
         rep.coverage = {"states": states, "transitions": trans, "traces_validated_against_impl": len(behs),
                         "samples": [{"behaviour": [s["a"]["k"] for s in behs[0]]}], "stopped_after": "replay"}
         return rep.finish()
     need = ["Begin", "Put", "Del", "Child", "CommitChild", "DropChild", "Commit", "Drop", "Crash",
-            "OutIterOpen", "OutIterNext", "OutIterClose"]
+            "OutIterOpen", "OutIterNext", "OutIterClose", "ReadBegin", "ReadEnd"]
     missing = [a for a in need if replayed_actions.get(a, 0) == 0]
     if missing:
         raise ToolError("replayed behaviours never contain %s" % missing)
@@ -381,6 +589,27 @@ def run(tier, replay):
         rep.coverage = {"states": states, "transitions": trans, "traces_validated_against_impl": len(behs),
                         "samples": [{"deferred_resize_scenario": gate}], "stopped_after": "gate"}
         return rep.finish()
+
+    # (N) (F) per-thread nesting and reads in flight at the resize gate (directed, ~2 s each; before the random runs)
+    nested, ntrace = run_nested(rep, wd, seed)
+    scen_traces = [("nested", ntrace)]
+    if thorough and not rep.violations:
+        # the other order of the two crossings (own batch first / another thread's batch first)
+        os.rename(ntrace, ntrace + ".a")
+        scen_traces = [("nested", ntrace + ".a")]
+        nested2, ntrace2 = run_nested(rep, wd, seed + 1)
+        nested = [nested, nested2]
+        scen_traces.append(("nested", ntrace2))
+    inflight, ftrace = (None, None) if rep.violations else run_inflight(rep, wd)
+    scen_path, scen_events = (None, 0)
+    if not rep.violations:
+        scen_path, scen_events = validate_scenarios(rep, wd, scen_traces + [("inflight", ftrace)])
+    if rep.violations:
+        rep.coverage = {"states": states, "transitions": trans, "traces_validated_against_impl": len(behs),
+                        "samples": [{"nested_scenario": nested, "inflight_scenario": inflight}], "stopped_after": "nested/inflight"}
+        return rep.finish()
+
+    phase("scenarios")
 
     # (B1) threads + map growth
     recs = []
@@ -400,13 +629,18 @@ def run(tier, replay):
                         "samples": [{"behaviour": [s["a"]["k"] for s in behs[0]]}], "stopped_after": "record"}
         return rep.finish()
 
+    phase("record")
     # (B2) process death around commit()
     crash = run_crash(rep, wd, seed, 24 if thorough else 8)
+    phase("crash")
 
-    st = selftest(rep, wd, behs, recs[0]["trace"], recs[0]["nk"]) if recs and not rep.violations else None
+    st = selftest(rep, wd, behs, recs[0]["trace"], recs[0]["nk"], scen_path) if recs and not rep.violations else None
 
+    phase("selftest")
     # (P) stale head-room check with two writers
     race = run_race(rep, wd)
+    squeeze = run_squeeze(wd)
+    phase("race")
 
     never = [a for a in T_ACTIONS if TCOUNTS.get(a, 0) == 0]
     if never and not rep.violations:
@@ -415,7 +649,7 @@ def run(tier, replay):
     sample_b = next((b for b in behs if max(s["d"] for s in b) >= 3 and any(s["a"]["k"] == "Commit" for s in b)), behs[0])
     rep.coverage = {
         "states": states, "transitions": trans,
-        "traces_validated_against_impl": len(behs) + len(recs) + len(crash["runs"]),
+        "traces_validated_against_impl": len(behs) + len(recs) + len(crash["runs"]) + len(scen_traces) + 1,
         "samples": [{"behaviour": sample_b},
                     {"mt_trace_head": vlib.read_ndjson(recs[0]["trace"])[:6] if recs else []},
                     {"crash_runs": crash["runs"][:3]}],
@@ -432,9 +666,15 @@ def run(tier, replay):
         "crash_runs": len(crash["runs"]), "crash_trace_events": crash["events"],
         "trace_action_counts": dict(TCOUNTS),
         "deferred_resize_scenario": gate,
+        "nested_transactions_scenario": nested,
+        "read_in_flight_scenario": inflight,
+        "scenario_trace_events": scen_events,
         "headroom_probe": race,
+        "own_iterator_headroom_probe": squeeze,
         "selftest": st,
-        "checker_cmd": "tlc mc/MC_KV (%s); h_kv replay; h_kv record + tlc trace/KVTrace; h_kv crash + tlc trace/KVTrace; h_kv gate; h_kv race" % ",".join(cfgs),
+        "phase_wall_s": phases,
+        "checker_cmd": "tlc mc/MC_KV (%s); h_kv replay; h_kv record + tlc trace/KVTrace; h_kv crash + tlc trace/KVTrace; h_kv gate; h_kv nested + h_kv inflight + tlc trace/KVTrace; h_kv race; careless model variants: %s"
+                       % (",".join(cfgs + ["MC_KV_live"]), ",".join(c for c, _ in CARELESS)),
     }
     rep.assumptions = [
         "LMDB itself (lmdb-master-sys / heed 0.22) is trusted for page-level atomicity and fsync; the check observes it only through grin_store's API",
@@ -445,5 +685,11 @@ def run(tier, replay):
         "does not return within 15 more seconds (or a single call stuck for 135 s)",
         "outside observations are validated as 'equal to one committed version inside the call's commit-counter interval' (no wall-clock ordering)",
         "Crash in direction A = close without commit and reopen in the same process; real process kills are direction B(ii)",
+        "a batch opened by a thread that itself holds a store iterator or read while the map is more than 90 % full gets no "
+        "enlargement before it (the enlargement has to wait for that very transaction): the property's quantifier has the iterators "
+        "on OTHER threads; KV!squeezed assumes such a batch fits into what is left (the scenario writes 100 bytes)",
+        "reads in flight are produced with a Readable that stops between two halves of its value; Store::exists cannot be stopped that way",
+        "direction A runs reads in flight and iterators on helper threads (no resize there, so the owning thread has no observable effect); "
+        "thread ownership at the gate is bound by the directed scenarios (N), (F), (G) only",
     ]
     return rep.finish()
